@@ -121,7 +121,7 @@ def conic_der(kind):
 # ------------------------------------------------------------------------------------ bounded: everything else
 DER_CASES = ['jacobi_der', 'laguerre_der', 'cheby_der', 'legendre_der', 'zernike_nm_der', 'der_seq-families',
              'jacobi_sum_clenshaw_der', 'clenshaw_qbfs_der', 'compute_z_zprime_Qbfs', 'compute_z_zprime_Qcon',
-             'compute_z_zprime_Q2d', 'off_axis_conic_der', 'off_axis_conic_sigma_der']
+             'compute_z_zprime_Q2d', 'off_axis_conic_der', 'off_axis_conic_sigma_der', 'Q2d_and_der']
 
 
 def _fd(f, x, h=1e-5):
@@ -133,7 +133,8 @@ def _fd(f, x, h=1e-5):
          fuc=['prysm.polynomials.jacobi.jacobi_sum_clenshaw_der', 'prysm.polynomials.qpoly.clenshaw_qbfs_der',
               'prysm.polynomials.qpoly.compute_z_zprime_Qbfs', 'prysm.polynomials.qpoly.compute_z_zprime_Qcon',
               'prysm.polynomials.qpoly.compute_z_zprime_Q2d', 'prysm.polynomials.zernike.zernike_nm_der',
-              'prysm.x.raytracing.surfaces.off_axis_conic_der', 'prysm.x.raytracing.surfaces.off_axis_conic_sigma_der'])
+              'prysm.x.raytracing.surfaces.off_axis_conic_der', 'prysm.x.raytracing.surfaces.off_axis_conic_sigma_der',
+              'prysm.x.raytracing.surfaces.Q2d_and_der'])
 def bounded_der(which):
     """BOUNDED (not a proof): each *_der / slope routine against a 6th-order central difference of its value routine on
     seeded orders (incl. n = 0, 1), parameters, coefficient vectors (dense, sparse, length 1..8) and interior points."""
@@ -233,8 +234,27 @@ def bounded_der(which):
             val = lambda rr, tt: get(S + 'off_axis_conic_sag')(c, k, rr, tt, **kw)
             dr, dt = get(S + 'off_axis_conic_der')(c, k, r, t, **kw)
         else:
-            val = lambda rr, tt: get(S + 'off_axis_conic_sigma')(c, k, rr, tt, **kw)
+            # documented as, and used by Q2d_and_der as, the derivatives of 1 / off_axis_conic_sigma
+            val = lambda rr, tt: 1 / get(S + 'off_axis_conic_sigma')(c, k, rr, tt, **kw)
             dr, dt = get(S + 'off_axis_conic_sigma_der')(c, k, r, t, **kw)
         ok &= bool(np.allclose(dr, _fd(lambda rr: val(rr, t), r, 1e-4), rtol=1e-5, atol=1e-9))
         ok &= bool(np.allclose(dt, _fd(lambda tt: val(r, tt), t, 1e-4), rtol=1e-5, atol=1e-9))
+    if which == 'Q2d_and_der':
+        # the sag-and-slope evaluator of a 2D-Q freeform on a (possibly shifted) conic base, as the ray tracer uses it
+        S = 'prysm.x.raytracing.surfaces.'
+        f = get(S + 'Q2d_and_der')
+        cm0 = list(rng.standard_normal(int(rng.integers(1, 4))) * 1e-2)
+        M = int(rng.integers(0, 3))
+        ams = [list(rng.standard_normal(int(rng.integers(1, 4))) * 1e-2) for _ in range(M)]
+        bms = [list(rng.standard_normal(int(rng.integers(1, 4))) * 1e-2) for _ in range(M)]
+        R = float(rng.choice([1.0, 2.0, 7.5, float(rng.uniform(0.5, 12))]))
+        c = float(rng.choice([0.0, float(rng.uniform(-0.04, 0.04))]))
+        k = float(rng.choice([0.0, -1.0, float(rng.uniform(-2, 1))]))
+        kw = {} if rng.random() < 0.4 else (dict(dx=float(rng.uniform(-10, 10))) if rng.random() < 0.5 else dict(dy=float(rng.uniform(-10, 10))))
+        rr_ = rng.uniform(0.1, 0.9, (2, 3)) * R        # 2-D point sets: 1-D x, y would be read as the axes of a grid (cart_to_polar)
+        tt_ = rng.uniform(-3, 3, (2, 3))
+        val = lambda r_, t_: f(cm0, ams, bms, r_ * np.cos(t_), r_ * np.sin(t_), R, c, k, **kw)[0]
+        z, dr, dt = f(cm0, ams, bms, rr_ * np.cos(tt_), rr_ * np.sin(tt_), R, c, k, **kw)
+        ok = bool(np.allclose(dr, _fd(lambda r_: val(r_, tt_), rr_, 1e-4 * R), rtol=1e-5, atol=1e-8)) and \
+            bool(np.allclose(dt, _fd(lambda t_: val(rr_, t_), tt_, 1e-4), rtol=1e-5, atol=1e-8))
     check('matches-central-difference', bool(ok))
